@@ -137,6 +137,7 @@ def enumerate_shapes(tier, seed):
         tagsets = [""] + list(ALL_TAGS)
         tagsets += ["".join(x) for x in itertools.product(reps, repeat=2)]
         tagsets += ["[ii]", "sbi", "bsm", "dfs", "TsN", "[s][b]"]
+        tagsets += ["ifsbh", "sifTdmc", "[i[ss]]b", "hhhhiiii", "tdrcmSFI", "iiiiiiisiiii"]     # more than three values
         for k, tags in enumerate(tagsets):
             nstr = sum(1 for t in tags if t in "sSb")
             if nstr == 0:
